@@ -160,6 +160,14 @@ type Traffic struct {
 	Hostile   bool // hostile field contents (C05 pipeline tier)
 	mix       bool // next Data(): add a data set of a template this exporter never announced
 	fillTo    int  // next Data(): pad with an undecodable set / sample so that the datagram has exactly this many octets
+	onlyTpl   int  // next Data(): 1+index of the only template to use (0 = any)
+}
+
+// DataOf is Data restricted to data sets of the exporter's template number tpl (IPFIX / NetFlow v9).
+func (t *Traffic) DataOf(e []byte, id int, big bool, tpl int) []byte {
+	t.onlyTpl = tpl + 1
+	defer func() { t.onlyTpl = 0 }()
+	return t.Data(e, id, big)
 }
 
 // DataExact is a small decodable datagram brought to exactly size octets by one filler the decoder
@@ -266,6 +274,9 @@ func (t *Traffic) Data(e []byte, id int, big bool) []byte {
 		used := 24
 		for len(sets) == 0 || (big && used < budget-100 && len(sets) < 40) {
 			tp := tps[g.Intn(len(tps))]
+			if t.onlyTpl > 0 && t.onlyTpl <= len(tps) {
+				tp = tps[t.onlyTpl-1]
+			}
 			k := 1
 			if big {
 				k = g.Range(1, 8)
